@@ -24,7 +24,7 @@ for key, specs in seen.items():
         cmd = ["go", "test", "-tags", "verif", "-overlay", ov, "-run", "^$", "-count=1", "-vet=off", "./" + d["pkg"]]
         cwd = moddir
     else:
-        cwd = runner.ext_module_ready()
+        cwd = runner.ext_module_ready(d['pkg'])
         cmd = ["go", "test", "-tags", "verif", "-run", "^$", "-count=1", "-vet=off", "./" + d["pkg"]]
     r = subprocess.run(cmd, cwd=cwd, env=runner.goenv(), stdout=subprocess.PIPE, stderr=subprocess.STDOUT, text=True)
     print("warm", key, "rc", r.returncode)
